@@ -40,9 +40,9 @@ public:
   ALLOW_STD_FEATURE(BASIS, true)
   SolutionBasis GetBasis() override;
   void SetBasis(SolutionBasis) override;
-  ALLOW_STD_FEATURE(WARMSTART, true)
+  REC_SWITCHABLE_STD_FEATURE(WARMSTART)       // env RECSOLVER_FEATURES=-WARMSTART: base class default (unsupported)
   void AddPrimalDualStart(Solution sol) override;
-  ALLOW_STD_FEATURE(MIPSTART, true)
+  REC_SWITCHABLE_STD_FEATURE(MIPSTART)
   void AddMIPStart(ArrayRef<double> x0, ArrayRef<int> sparsity) override;
   ALLOW_STD_FEATURE(VAR_PRIORITIES, true)
   void VarPriorities(ArrayRef<int> p) override;
